@@ -56,6 +56,10 @@ Qed.
 
 Section Sound.
   Variable printable : N -> bool.
+  (* the one fact about the Unicode database that is needed: surrogate code points (category
+     Cs) are not printable, so repr() always escapes them.  Checked against the running
+     interpreter for all 2048 surrogates on every run of the check. *)
+  Hypothesis surrogates_unprintable : forall c, is_surrogate c = true -> printable c = false.
 
   Definition valid (s : str) : Prop := Forall (fun c => c < MAXCP) s.
 
@@ -83,11 +87,13 @@ Section Sound.
   Proof.
     intros Hq Hc. unfold repr_char.
     assert (Hbq : BS =? q = false) by (destruct Hq; subst; reflexivity).
-    assert (Hraw : c =? q = false -> c =? BS = false -> 32 <= c ->
+    assert (Hraw : c =? q = false -> c =? BS = false -> 32 <= c -> is_surrogate c = false ->
                    lex_body q LNorm ([c] ++ tail) = cons_res c (lex_body q LNorm tail)).
-    { intros E1 E2 H32. cbn [app lex_body]. rewrite E1, E2.
-      replace ((c =? 10) || (c =? 13) || (c =? 0)) with false; [reflexivity|].
-      symmetry. repeat (apply orb_false_iff; split); apply N.eqb_neq; lia. }
+    { intros E1 E2 H32 Hs. cbn [app lex_body]. rewrite E1, E2.
+      replace (bad_raw c) with false; [reflexivity|].
+      symmetry. unfold bad_raw. rewrite Hs.
+      repeat (apply orb_false_iff; split); try reflexivity; try (apply N.eqb_neq; lia).
+      apply N.leb_gt. exact Hc. }
     assert (Hsimple : forall e v,
                (e =? BS) || (e =? SQ) || (e =? DQ) = false ->
                (if e =? 110 then Some 10 else if e =? 114 then Some 13 else if e =? 116 then Some 9 else None) = Some v ->
@@ -112,8 +118,12 @@ Section Sound.
         [apply N.ltb_lt in E | apply N.eqb_eq in E]; rewrite !p16_S, p16_0; lia. }
     apply orb_false_iff in E2. destruct E2 as [E32 E127].
     apply N.ltb_ge in E32.
-    destruct (c <? 127); [apply Hraw; assumption|].
-    destruct (printable c); [apply Hraw; assumption|].
+    destruct (N.ltb_spec c 127) as [L127|L127].
+    { apply Hraw; try assumption. unfold is_surrogate.
+      apply andb_false_iff. left. apply N.leb_gt. lia. }
+    destruct (printable c) eqn:Ep.
+    { apply Hraw; try assumption. destruct (is_surrogate c) eqn:Es; [|reflexivity].
+      rewrite (surrogates_unprintable c Es) in Ep. discriminate. }
     destruct (N.leb_spec c 255) as [L|L].
     { apply (lex_escape_hex q c 1 tail 120); auto. rewrite !p16_S, p16_0; lia. }
     destruct (N.leb_spec c 65535) as [L2|L2].
